@@ -137,6 +137,9 @@ func diffCases(r *vf.Run, groupMode bool) []diffCase {
 	}
 	cases = append(cases, diffCase{id: "concat-small", rows: 60}, diffCase{id: "concat-1200", rows: 1200})
 	cases = append(cases, diffCase{id: "wide-rows", rows: 60})
+	if !groupMode && r.Thorough() {
+		cases = append(cases, diffCase{id: "dense", rows: 150000})
+	}
 	if !groupMode {
 		cases = append(cases, diffCase{id: "container-edges", rows: 131072})
 	}
@@ -163,6 +166,9 @@ func diffCases(r *vf.Run, groupMode bool) []diffCase {
 		}
 		if c.id == "manygroups" {
 			c.opts = gen.DatasetOpts{Rows: c.rows, MaxCols: 2, MaxCard: 6000, Shapes: []gen.ValueShape{gen.ShapeManyDistinct, gen.ShapeRun}, HostileVals: true}
+		}
+		if c.id == "dense" {
+			c.opts = gen.DatasetOpts{Rows: c.rows, Crafted: "dense"}
 		}
 		if c.id == "container-edges" || c.id == "wide-rows" {
 			c.opts = gen.DatasetOpts{Rows: c.rows, Crafted: c.id}
